@@ -448,6 +448,43 @@ fn c01_job(state: &str, residue_kind: &str, tier: &str, stream: u64) -> Vec<Valu
                 }
             }
             out.push(record(state, "field-edit", srck, residue_kind, kind, t, None));
+            // signature forgeries that need no key: the genuine content under other salts, a key hash that matches no
+            // trusted key (or the genuine one), and a signature made of small-order curve points and trivial scalars -
+            // what a verifier accepts when it falls back to a degenerate (all-zero, identity, low-order) public key
+            if residue_kind == "zero" {
+                let mut t = Tally::default();
+                let n = g.len();
+                if n > 80 && g[n - 65] == 64 {
+                    let small_r: [[u8; 32]; 5] = [
+                        { let mut r = [0u8; 32]; r[0] = 1; r },                       // identity
+                        [0u8; 32],                                                    // order 4
+                        { let mut r = [0xffu8; 32]; r[0] = 0xec; r[31] = 0x7f; r },  // order 2
+                        { let mut r = [0u8; 32]; r[31] = 0x80; r },                  // order 4 (sign bit)
+                        { let mut r = [0u8; 32]; r[0] = 1; r[31] = 0x80; r },        // non-canonical identity
+                    ];
+                    let scalars: [[u8; 32]; 2] = [[0u8; 32], { let mut x = [0u8; 32]; x[0] = 1; x }];
+                    for salt in 0..(if quick { 24u8 } else { 128 }) {
+                        for keep_hash in [false, true] {
+                            for r in &small_r {
+                                for sc in &scalars {
+                                    let mut b = g.clone();
+                                    // bytes 1..5 salt, 5..9 key hash prefix (both inside the signed content)
+                                    b[1] = salt;
+                                    b[2] = salt.wrapping_mul(37);
+                                    if !keep_hash {
+                                        b[5] ^= 0x5a;
+                                        b[6] = salt;
+                                    }
+                                    b[n - 64..n - 32].copy_from_slice(r);
+                                    b[n - 32..].copy_from_slice(sc);
+                                    present_member(&mut p, &mut t, src, &b, Some(&residue), "degenerate-signature");
+                                }
+                            }
+                        }
+                    }
+                    out.push(record(state, "degenerate-signature", srck, residue_kind, kind, t, None));
+                }
+            }
         }
     }
     // random datagrams carrying the handshake marker
